@@ -49,3 +49,33 @@ func VerifC09TimeWheel() {
 	tw.Stop()
 	vapi.Reach("c09-timewheel")
 }
+
+// VerifC09AfterTwoTimeouts: the package-level rtimer.After itself (one wheel per timeout value,
+// kept in a map): with a long and a short timeout in use in one process, in either order of first
+// use, each timer still fires within [0.9 T, T] of ITS timeout.
+func VerifC09AfterTwoTimeouts() {
+	long, short := time.Second, 50*time.Millisecond
+	slack := time.Duration(0)
+	if !vapi.Engine() {
+		slack = 30 * time.Millisecond
+	}
+	var la <-chan struct{}
+	if vapi.Bool("longfirst") {
+		la = After(long)
+	}
+	// let the wheel(s) run for a while
+	time.Sleep(time.Duration(vapi.Choice("ticks", 5)) * 70 * time.Millisecond)
+	t0 := c09WheelNow()
+	<-After(short)
+	el := time.Duration(c09WheelNow() - t0)
+	vapi.Check(el <= short+slack, "rtimer.After(T) fires no later than T, whatever other timeouts are in use")
+	vapi.Check(el >= short-short/10-slack, "rtimer.After(T) fires no earlier than 0.9 T")
+	if la == nil {
+		la = After(long)
+	}
+	t1 := c09WheelNow()
+	<-la
+	el = time.Duration(c09WheelNow() - t1)
+	vapi.Check(el <= long+slack, "rtimer.After(T) fires no later than T, whatever other timeouts are in use")
+	vapi.Reach("c09-after-two-timeouts")
+}
